@@ -856,7 +856,7 @@ func (f *Frame) appendBuiltin(s, t *SVal, rt types.Type, pos token.Pos) *SVal {
 	sarr := sSel(h, s.Sub[0].Term)
 	inPlace := g.arrCopy(es, sarr, sApp("bvadd", s.Sub[1].Term, s.Sub[2].Term), tarr, toff, n)
 	// reallocation: new array = s's elements then t's
-	re1 := g.arrCopy(es, fmt.Sprintf("((as const %s) %s)", arrSort(SBV64, es), g.zeroScalar(et)), bv64(0), sarr, s.Sub[1].Term, s.Sub[2].Term)
+	re1 := g.arrCopy(es, g.constArray(arrSort(SBV64, es), es, g.zeroScalar(et)), bv64(0), sarr, s.Sub[1].Term, s.Sub[2].Term)
 	re2 := g.arrCopy(es, re1, s.Sub[2].Term, tarr, toff, n)
 	g.heapSet(f.curState, elemFam(et), srt, sIte(fits, sStore(h, s.Sub[0].Term, inPlace), sStore(h, nb, re2)))
 	return res
